@@ -219,7 +219,8 @@ def row_flow(ck, F):
                     ck.ob(R, "%s|new Row.%s|from-parameter" % (fn, f), ok, "%s builds Row.%s from %s" % (fn, f, sorted(sr)), fl, ln)
                 else:
                     # attributes not being changed: defaults (constants) or the row's current value
-                    ok = all(x[0] in ("const",) or (x[0] == "call" and x[1].endswith(("is_row_hidden", "row_height", "get_row_style"))) for x in sr)
+                    # arithmetic whose leaves are all constants is still a constant (DEFAULT_ROW_HEIGHT / ROW_HEIGHT_FACTOR)
+                    ok = all(x[0] in ("const", "arith") or (x[0] == "call" and x[1].endswith(("is_row_hidden", "row_height", "get_row_style"))) for x in sr)
                     ck.ob(R, "%s|new Row.%s|default-or-current" % (fn, f), ok,
                           "%s builds Row.%s (not the attribute being set) from %s" % (fn, f, sorted(sr)), fl, ln,
                           sample={"fn": fn, "field": f, "sources": sorted(map(str, sr))})
